@@ -99,4 +99,6 @@ def panel (f : Feat) : Panel :=
     prog := prog f,
     ctrl := .uc (Uc.por WIDTH HEIGHT 1 7 false) }
 
+attribute [driver_simp] W init setLutHelper setLut setPartReg sleep updateFrame updatePartialFrame displayFrame clearFrame prog
+
 end EpdVerif.Drivers.Epd2in9d
